@@ -128,6 +128,7 @@ impl TokenKind {
 }
 
 /// All available keywords in the latest (VHDL 2019) edition of VHDL
+/// and the keywords that only earlier editions reserve.
 #[derive(PartialEq, Eq, Clone, Copy, Debug)]
 #[cfg_attr(feature = "serde", derive(serde::Serialize, serde::Deserialize))]
 pub enum Keyword {
@@ -141,6 +142,7 @@ pub enum Keyword {
     Array,
     Assert,
     Assume,
+    AssumeGuarantee,
     Attribute,
     Begin,
     Block,
@@ -213,6 +215,7 @@ pub enum Keyword {
     Rem,
     Report,
     Restrict,
+    RestrictGuarantee,
     Return,
     Rol,
     Ror,
@@ -263,6 +266,7 @@ impl Keyword {
             Self::Array => Latin1Str::new(b"array"),
             Self::Assert => Latin1Str::new(b"assert"),
             Self::Assume => Latin1Str::new(b"assume"),
+            Self::AssumeGuarantee => Latin1Str::new(b"assume_guarantee"),
             Self::Attribute => Latin1Str::new(b"attribute"),
             Self::Begin => Latin1Str::new(b"begin"),
             Self::Block => Latin1Str::new(b"block"),
@@ -335,6 +339,7 @@ impl Keyword {
             Self::Rem => Latin1Str::new(b"rem"),
             Self::Report => Latin1Str::new(b"report"),
             Self::Restrict => Latin1Str::new(b"restrict"),
+            Self::RestrictGuarantee => Latin1Str::new(b"restrict_guarantee"),
             Self::Return => Latin1Str::new(b"return"),
             Self::Rol => Latin1Str::new(b"rol"),
             Self::Ror => Latin1Str::new(b"ror"),
@@ -386,6 +391,7 @@ impl Keyword {
             b"array" => Self::Array,
             b"assert" => Self::Assert,
             b"assume" => Self::Assume,
+            b"assume_guarantee" => Self::AssumeGuarantee,
             b"attribute" => Self::Attribute,
             b"begin" => Self::Begin,
             b"block" => Self::Block,
@@ -458,6 +464,7 @@ impl Keyword {
             b"rem" => Self::Rem,
             b"report" => Self::Report,
             b"restrict" => Self::Restrict,
+            b"restrict_guarantee" => Self::RestrictGuarantee,
             b"return" => Self::Return,
             b"rol" => Self::Rol,
             b"ror" => Self::Ror,
@@ -503,10 +510,10 @@ impl Keyword {
             // VHDL 2019
             Self::View | Self::Private | Self::Vpgk => VHDL2019,
             // VHDL 2008
-            // Also introduces keywords "assume_guarantee" and "restrict_guarantee".
-            // However as they only appear in this specific standard and are revoked later,
-            // they are treated as identifiers unless there is a feature request to support this.
+            // The keywords "assume_guarantee" and "restrict_guarantee" only appear in this
+            // specific standard and are revoked later, see `removed_in`.
             Self::Assume
+            | Self::AssumeGuarantee
             | Self::Context
             | Self::Cover
             | Self::Default
@@ -516,6 +523,7 @@ impl Keyword {
             | Self::Property
             | Self::Release
             | Self::Restrict
+            | Self::RestrictGuarantee
             | Self::Sequence
             | Self::Strong
             | Self::Vmode
@@ -545,5 +553,20 @@ impl Keyword {
             // Everything else: VHDL 1987
             _ => VHDL1987,
         }
+    }
+
+    /// Returns the VHDL standard from which on this keyword is no longer reserved,
+    /// or `None` if the keyword was never revoked.
+    pub fn removed_in(self) -> Option<VHDLStandard> {
+        match self {
+            Self::AssumeGuarantee | Self::RestrictGuarantee => Some(VHDLStandard::VHDL2019),
+            _ => None,
+        }
+    }
+
+    /// Checks whether this keyword is a reserved word in the given VHDL standard.
+    pub fn is_reserved_in(self, standard: VHDLStandard) -> bool {
+        self.introduced_in() <= standard
+            && self.removed_in().is_none_or(|removed| standard < removed)
     }
 }
